@@ -106,7 +106,7 @@ Example C03_nonvacuous_write :
   no_err [Short 1; Eintr; Eintr; Short 3; Full] = true /\
   (let (r, o) := write_or_throw [1; 2; 3; 4; 5; 6; 7; 8]%Z (os_init [] [Short 1; Eintr; Eintr; Short 3; Full]) in
    r = Ok tt /\ os_sink o = [1; 2; 3; 4; 5; 6; 7; 8]%Z /\
-   rev (os_trace o) = [(8, 1); (7, -1); (7, -1); (7, 3); (4, 4)]%Z).
+   rev (os_trace o) = [(8, 1%Z); (7, (-1)%Z); (7, (-1)%Z); (7, 3%Z); (4, 4%Z)]).
 Proof. vm_compute. repeat split. Qed.
 
 Example C03_nonvacuous_filter :
